@@ -1,9 +1,224 @@
 import TaurexModel.Proto
+import TaurexModel.Factory
+import TaurexModel.Gen.Registry
+import TaurexModel.Gen.Docs
 
+/-
+  Operations of the C15 model served by `driver_c15`.
+
+  wire encodings (all space separated tokens; strings %-escaped as in harness/common.py `S`):
+    scalar : `n` | `b 0|1` | `i <int>` | `d 0|1 <mant> <exp>` | `f 0|1` (inf, negative?) | `x` (nan) | `s <str>`
+    value  : `S <scalar>` | `L <n> <scalar>*` | `O <repr>` | `R <what>`
+    config : <n> (<key> <value>)*
+    sec    : <config> <n> (<name> <config>)*
+    file   : <n> (<name> <sec>)*
+    klass  : <path> <name> <keywords> <args> <required> <kwargs:config> <varkw> <isMixin> <mixinArgs>
+             <mixinKwargs:config> <hasAddGas> <sections>
+    customs: <n> (<file> <n> <klass>*)*
+-/
 namespace Taurex.Ops.C15
-open Taurex.Proto
+open Taurex.Proto Taurex.Factory Taurex.Gen
 
-/-- operations of the C15 model served by `driver_c15` (filled in by the C15 check) -/
-def ops : List Op := []
+/-! ### token escaping -/
+
+def hexVal (c : Char) : Option Nat :=
+  if 48 ≤ c.toNat ∧ c.toNat ≤ 57 then some (c.toNat - 48)
+  else if 65 ≤ c.toNat ∧ c.toNat ≤ 70 then some (c.toNat - 55)
+  else if 97 ≤ c.toNat ∧ c.toNat ≤ 102 then some (c.toNat - 87)
+  else none
+
+def unescL : List Char → List Char
+  | '%' :: a :: b :: rest =>
+    match hexVal a, hexVal b with
+    | some x, some y => Char.ofNat (x * 16 + y) :: unescL rest
+    | _, _ => '%' :: unescL (a :: b :: rest)
+  | c :: rest => c :: unescL rest
+  | [] => []
+
+def unesc (s : String) : String := if s = "%e" then "" else String.ofList (unescL s.toList)
+
+def hexDigit (n : Nat) : Char := if n < 10 then Char.ofNat (48 + n) else Char.ofNat (55 + n)
+
+def escChar (c : Char) : List Char :=
+  if c = '%' ∨ c.toNat ≤ 32 ∨ c.toNat = 127 then ['%', hexDigit (c.toNat / 16), hexDigit (c.toNat % 16)] else [c]
+
+def esc (s : String) : String := if s = "" then "%e" else String.ofList (s.toList.flatMap escChar)
+
+def str : P String := do
+  let t ← tok
+  pure (unesc t)
+
+/-! ### decoding -/
+
+def scalarP : P Scalar := do
+  let t ← tok
+  match t with
+  | "n" => pure .none
+  | "b" => do let b ← bool; pure (.bool b)
+  | "i" => do let i ← int; pure (.int i)
+  | "d" => do
+    let n ← bool
+    let m ← nat
+    let e ← int
+    pure (.dec n m e)
+  | "f" => do let n ← bool; pure (.inf n)
+  | "x" => pure .nan
+  | "s" => do let s ← str; pure (.str s)
+  | _ => failure
+
+def valueP : P Value := do
+  let t ← tok
+  match t with
+  | "S" => do let s ← scalarP; pure (.scalar s)
+  | "L" => do let l ← listOf scalarP; pure (.list l)
+  | "O" => do let s ← str; pure (.other s)
+  | "R" => do let s ← str; pure (.ref s)
+  | _ => failure
+
+def configP : P Config := listOf (do
+  let k ← str
+  let v ← valueP
+  pure (k, v))
+
+def secP : P Sec := do
+  let sc ← configP
+  let subs ← listOf (do
+    let n ← str
+    let c ← configP
+    pure (n, c))
+  pure { scalars := sc, subs := subs }
+
+def fileP : P InputFile := listOf (do
+  let n ← str
+  let s ← secP
+  pure (n, s))
+
+def klassP : P Klass := do
+  let path ← str
+  let name ← str
+  let keywords ← listOf str
+  let args ← listOf str
+  let required ← listOf str
+  let kwargs ← configP
+  let varkw ← bool
+  let isMixin ← bool
+  let mixinArgs ← listOf str
+  let mixinKwargs ← configP
+  let hasAddGas ← bool
+  let sections ← listOf str
+  pure { path, name, keywords, args, required, kwargs, varkw, isMixin, mixinArgs, mixinKwargs, hasAddGas, sections }
+
+def customsP : P Customs := listOf (do
+  let f ← str
+  let ks ← listOf klassP
+  pure (f, ks))
+
+/-! ### encoding -/
+
+def fS (s : String) : String := esc s
+
+def fScalar : Scalar → String
+  | .none => "n"
+  | .bool b => "b " ++ fB b
+  | .int i => "i " ++ fI i
+  | .dec n m e => s!"d {fB n} {m} {fI e}"
+  | .inf n => "f " ++ fB n
+  | .nan => "x"
+  | .str s => "s " ++ fS s
+
+def fValue : Value → String
+  | .scalar s => "S " ++ fScalar s
+  | .list l => "L " ++ fList fScalar l
+  | .other r => "O " ++ fS r
+  | .ref w => "R " ++ fS w
+
+def fConfig (c : Config) : String := fList (fun kv => fS kv.1 ++ " " ++ fValue kv.2) c
+
+def fComponent (c : Component) : String :=
+  fS c.cls ++ " " ++ fConfig c.kwargs ++ " " ++ fList (fun m => fS m.1 ++ " " ++ fConfig m.2) c.mixins
+
+def fErr : Err → String
+  | .keyError w => "KeyError " ++ fS w
+  | .notImplemented w => "NotImplementedError " ++ fS w
+  | .typeError w => "TypeError " ++ fS w
+  | .attrError w => "AttributeError " ++ fS w
+  | .generic w => "Exception " ++ fS w
+  | .valueError w => "ValueError " ++ fS w
+
+def fResult {β : Type} (f : β → String) : Option (Except Err β) → String
+  | none => "0"
+  | some (.error e) => "1 E " ++ fErr e
+  | some (.ok x) => "1 K " ++ f x
+
+def fChem (g : ChemistryGraph) : String :=
+  fComponent g.chemistry ++ " " ++ fList fComponent g.gases ++ " " ++ fB g.added
+
+def fModel (g : ModelGraph) : String := fComponent g.model ++ " " ++ fList fComponent g.contributions
+
+def fObs : ObsGraph → String
+  | .self => "self"
+  | .comp c => "comp " ++ fComponent c
+
+def fInst (g : InstrumentGraph) : String := fComponent g.instrument ++ " " ++ fValue g.numObs
+
+def fGraph (g : Graph) : String :=
+  " ".intercalate [fResult fChem g.chemistry, fResult fComponent g.temperature, fResult fComponent g.pressure,
+    fResult fComponent g.planet, fResult fComponent g.star, fResult fModel g.model, fResult fObs g.observation,
+    fResult fInst g.instrument, fResult fComponent g.optimizer]
+
+/-! ### operations -/
+
+/-- `c15.expected customs file` → the nine slots of `Factory.expected` on the generated registry -/
+def expectedOp (args : List String) : Option String :=
+  run (do
+    let customs ← customsP
+    let file ← fileP
+    pure (fGraph (expected Registry.registry customs file))) args
+
+/-- `c15.transform value` → `ParameterParser.transform` -/
+def transformOp (args : List String) : Option String :=
+  run (do
+    let v ← valueP
+    pure (fValue (transform v))) args
+
+/-- `c15.lookup section mixin? keyword` → `found? path` then the paths of all candidates;
+    the look-up is done on the class list as generated and on its reverse (must agree: `lookup_unique`) -/
+def lookupOp (args : List String) : Option String :=
+  run (do
+    let sec ← str
+    let mix ← bool
+    let kw ← str
+    let sr := Registry.registry.sec sec
+    let cls := if mix then sr.mixins else sr.classes
+    let a := (lookup cls kw).map (·.path)
+    let b := (lookup cls.reverse kw).map (·.path)
+    pure (fOpt fS a ++ " " ++ fOpt fS b ++ " " ++ fList fS ((candidates cls kw).map (·.path)))) args
+
+/-- `c15.prior name` → `create_prior` class -/
+def priorOp (args : List String) : Option String :=
+  run (do
+    let name ← str
+    pure (match lookupPrior (Registry.registry.sec "prior").classes name with
+      | .ok k => "1 " ++ fS k.path
+      | .error _ => "0")) args
+
+/-- `c15.docs` → documented selectors that do not resolve on the tables, documented keys that are not accepted -/
+def docsOp (args : List String) : Option String :=
+  run (do
+    let bad := Docs.selectors.filter (fun d => !resolvesTo Registry.registry d)
+    let badk := Docs.keys.filter (fun d => !keyAccepted Registry.registry d)
+    pure (fList (fun d => fS d.sec ++ " " ++ fS d.keyword ++ " " ++ fB d.inPackage) bad ++ " " ++
+      fList (fun d => fS d.sec ++ " " ++ fS d.keyword ++ " " ++ fS d.key) badk ++ " " ++
+      fN Docs.selectors.length ++ " " ++ fN Docs.keys.length)) args
+
+/-- `c15.number str` → `float(str)` : `0` (ValueError) or `1 scalar` -/
+def numberOp (args : List String) : Option String :=
+  run (do
+    let s ← str
+    pure (fOpt fScalar (parseNumber s))) args
+
+def ops : List Op :=
+  [("c15.expected", expectedOp), ("c15.transform", transformOp), ("c15.lookup", lookupOp),
+   ("c15.prior", priorOp), ("c15.docs", docsOp), ("c15.number", numberOp)]
 
 end Taurex.Ops.C15
